@@ -88,6 +88,38 @@ _mk_reconfigured(2, "quick")
 _mk_reconfigured(3, "quick")
 _mk_reconfigured(4, "thorough")
 
+
+CROSS = [((5, 1, 3), (0, 1, 2), (2, 0, 1)), ((5, 1, 3), (0, 1, 2), (0, 1, 2, 1)), ((2, 2), (0, 1), (1, 0)), ((4, 1, 2, 1), (0, 1, 2, 3), (2, 1, 0, 3))]
+
+
+@obligation("C17", "two-cycles-in-one-process", functions=F,
+            bounds="two cycle objects built from the same set of elements in a different order / with a repeated element (4 concrete element sets "
+                   "and orders, offsets 0..3: hashing a cycle needs concrete members), the first one queried before the second; any integer time steps")
+def two_cycles(V):
+    durs, oa, ob_ = CROSS[V.choice("elements", len(CROSS))]
+    off = V.choice("offset", 4)
+    t0, t = V.int("t_first"), V.int("t")
+    els = [TrafficLightCycleElement(COL[i % 5], d) for i, d in enumerate(durs)]
+
+    def claim(st, order, tt):
+        T = sum(durs[i] for i in order)
+        m = (tt - off) % T
+        lo, wins = 0, []
+        for i in order:
+            wins.append(V.And(lo <= m, m < lo + durs[i], st is COL[i % 5]))
+            lo += durs[i]
+        return V.Or(wins)
+
+    first = TrafficLightCycle([els[i] for i in oa], off)
+    first == first
+    V.prove("first cycle: state of its own window", claim(first.get_state_at_time_step(t0), oa, t0))
+    second = TrafficLightCycle([els[i] for i in ob_], off)
+    second == first
+    V.prove("second cycle: state of its own window, in its own order", claim(second.get_state_at_time_step(t), ob_, t))
+    V.prove("first cycle again", claim(first.get_state_at_time_step(t), oa, t))
+    tl = TrafficLight(5, np.array([0.0, 0.0]), second)
+    V.prove("TrafficLight agrees with the second cycle", tl.get_state_at_time_step(t) is second.get_state_at_time_step(t))
+
 _T = "commonroad.scenario.traffic_light:TrafficLightCycle."
 MUTANTS = [
     dict(name="argmax-off-by-one", target=_T + "get_state_at_time_step", old=") - 1\n", new=")\n"),
